@@ -458,7 +458,15 @@ class SpawnProcessRunner(ProcessRunner):
             # and results to the subprocess if we are going to run the
             # task (and not just load its result from cache) and allow
             # the task to filter the context to only what it needs.
-            filtered_context = task.filter_context(self.context)
+            try:
+                filtered_context = task.filter_context(self.context)
+            except Exception as ex:
+                # The task's own filter_context() failed: report that as
+                # a failure of this task, as the other runners do (they
+                # call it where task failures are caught).
+                failed_future = Future()
+                failed_future.set_exception(ex)
+                return failed_future
             results_map = {
                 dependency_task: self.results_map[dependency_task]
                 for dependency_task in get_direct_dependencies(task)
